@@ -24,4 +24,9 @@ PROFILES.append(
     S.profile(min_tasks=1, max_tasks=2, p_resources=0, task_constraints=(0, 1), optional_rules=(0, 0), resource_constraints=(0, 0), p_optional=20, p_release=5, p_due=5,
               focus=["ScheduleNTasksInTimeIntervals", "ScheduleNTasksInTimeIntervals", "UnorderedTaskGroup", "OrderedTaskGroup", "TasksContiguous"])
 )
+PROFILES.append(
+    # a task group as operand of a TaskPrecedence (group before task, task before group, group before group)
+    S.profile(min_tasks=2, max_tasks=4, p_resources=20, task_constraints=(0, 1), optional_rules=(0, 0), resource_constraints=(0, 0), p_optional=30, p_release=10, p_due=10,
+              p_group_precedence=100)
+)
 prop, run_shard, replay = _sound.make(ID, FAMILIES, "C03.soundness", PROFILES, 90, 1000)
